@@ -957,8 +957,17 @@ pub fn check_tree(spec: &NodeSpec, avail: Size<AvailableSpace>, st: &mut Stats) 
 // ------------------------------------------------------------------------------------------------ oracle cases
 
 pub fn ocase(seed: u64, idx: u64) -> (NodeSpec, Size<AvailableSpace>) {
+    ocase_mix(seed, idx, 60, None)
+}
+
+/// `ocase` with the per-mille rates of position:absolute / display:none children chosen by the caller (K3 of C05 / C06:
+/// block containers with absolute and hidden children interleaved between the in-flow ones)
+pub fn ocase_mix(seed: u64, idx: u64, p_absolute: u64, p_hidden: Option<u64>) -> (NodeSpec, Size<AvailableSpace>) {
     let mut rng = Rng::new(seed.wrapping_mul(0x2545_F491).wrapping_add(idx).wrapping_add(0x0C10_0000));
     let mut cfg = GenCfg::default();
+    if let Some(p) = p_hidden {
+        cfg.p_hidden = p;
+    }
     // mostly block, with flex / grid children mixed in
     cfg.displays = vec![Display::Block, Display::Block, Display::Block, Display::Block, Display::Flex, Display::Grid];
     cfg.max_nodes = 14;
@@ -968,7 +977,7 @@ pub fn ocase(seed: u64, idx: u64) -> (NodeSpec, Size<AvailableSpace>) {
     cfg.negative_margins = idx % 3 != 0; // a third of the cases exercise the order clause (non-negative margins)
     cfg.aspect = idx % 5 == 0;
     cfg.grid_lines = false;
-    cfg.p_absolute = 60;
+    cfg.p_absolute = p_absolute;
     let mut t = treegen::tree(&mut rng, &cfg);
     t.style.display = Display::Block;
     t.style.position = Position::Relative;
@@ -1167,22 +1176,38 @@ pub fn main(args: &[String]) {
                 println!("{txt}avail={:?}", avail);
             }
         }
-        "kcases2" => {
+        "kcases2" | "kcases3" => {
             // K2 cases: every eligible block container of the oracle trees 0..n (tagged with tree index and node)
+            // K3 (C05 / C06 / C10): the same protocol on trees with many position:absolute and / or display:none nodes;
+            // only containers that have such a child AND an in-flow child are printed
+            // `kcases3 <seed> <n> <p_absolute> <p_hidden>` (per mille); C06 runs it without hidden children, C05 without absolute
+            // ones (so that a defect of one property does not break the other's K), C10 with both
+            let mix = args[0] == "kcases3";
             let (seed, n) = (num(1), num(2));
-            let only: Option<(u64, usize)> = if args.len() > 4 { Some((num(3), num(4) as usize)) } else { None };
+            let (p_abs, p_hid) = if mix && args.len() > 4 { (num(3), num(4)) } else { (300, 250) };
+            let only: Option<(u64, usize)> = if !mix && args.len() > 4 { Some((num(3), num(4) as usize)) } else { None };
             for idx in 0..n {
                 if let Some((i, _)) = only {
                     if i != idx {
                         continue;
                     }
                 }
-                let (spec, avail) = ocase(seed, idx);
+                let (spec, avail) = if mix { ocase_mix(seed, idx, p_abs, Some(p_hid)) } else { ocase(seed, idx) };
                 let r = std::panic::catch_unwind(|| {
                     let laid = lay_out(&spec, avail);
                     let mut v = vec![];
                     for b in 0..laid.t.nodes.len() {
                         if laid.live[b] && laid.is_block_container(b) {
+                            if mix {
+                                let kids = &laid.t.nodes[b].children;
+                                let oof = |c: &usize| {
+                                    let s = &laid.t.nodes[*c].style;
+                                    s.display == Display::None || s.position == Position::Absolute
+                                };
+                                if !kids.iter().any(|c| oof(c)) || kids.iter().all(|c| oof(c)) {
+                                    continue;
+                                }
+                            }
                             if let Some((c, r)) = laid.k2_lines(b) {
                                 v.push((b, c, r));
                             }
